@@ -4,12 +4,12 @@ namespace Netpoll.Buf.Own
 open Netpoll.Buf
 
 /-- what every method lemma delivers: blocks extended, `Core` again, the buffer's caches fine -/
-def Tri (cfg : Cfg) (st : Bool) (s s' : Ledger) (b' : Buf) : Prop := Ext s s' ∧ Core cfg st s' ∧ BufOK cfg s' b'
+def Tri (cfg : Cfg) (st : Bool) (s s' : Mem) (b' : Buf) : Prop := Ext s s' ∧ Core cfg st s' ∧ BufOK cfg s' b'
 
-theorem Tri.same {cfg : Cfg} {st : Bool} {s : Ledger} {b : Buf} (hc : Core cfg st s) (hb : BufOK cfg s b) : Tri cfg st s s b :=
+theorem Tri.same {cfg : Cfg} {st : Bool} {s : Mem} {b : Buf} (hc : Core cfg st s) (hb : BufOK cfg s b) : Tri cfg st s s b :=
   ⟨Ext.refl s, hc, hb⟩
 
-theorem consumeLen_ok {cfg : Cfg} {s : Ledger} {b : Buf} (n : Nat) (hb : BufOK cfg s b) : BufOK cfg s (b.consumeLen n) := by
+theorem consumeLen_ok {cfg : Cfg} {s : Mem} {b : Buf} (n : Nat) (hb : BufOK cfg s b) : BufOK cfg s (b.consumeLen n) := by
   unfold Buf.consumeLen
   split
   · rename_i blk l cp hp
@@ -29,7 +29,7 @@ theorem consumeLen_chain (b : Buf) (n : Nat) : (b.consumeLen n).chain = b.chain 
   · split <;> exact ⟨rfl, rfl, rfl, rfl⟩
   · exact ⟨rfl, rfl, rfl, rfl⟩
 
-theorem isSingleNode_spec {s : Ledger} {b b' : Buf} {n i : Nat} {nd : NodeS} {f : Bool}
+theorem isSingleNode_spec {s : Mem} {b b' : Buf} {n i : Nat} {nd : NodeS} {f : Bool}
     (h : isSingleNode s b n = some (b', i, nd, f)) :
     s.nodes[i]? = some nd ∧ b'.caches = b.caches ∧ b'.cachePeek = b.cachePeek ∧ b'.chain = b.chain := by
   unfold isSingleNode at h
@@ -46,7 +46,7 @@ theorem isSingleNode_spec {s : Ledger} {b b' : Buf} {n i : Nat} {nd : NodeS} {f 
           obtain ⟨rfl, rfl, rfl, _⟩ := h
           exact ⟨hn, rfl, rfl, rfl⟩
 
-theorem onReadSuffix_spec {cfg : Cfg} {st : Bool} {s s' : Ledger} {b b' : Buf}
+theorem onReadSuffix_spec {cfg : Cfg} {st : Bool} {s s' : Mem} {b b' : Buf}
     {loop : List (Nat × NodeS) → Option (List (Nat × NodeS) × Nat)}
     (hl : ∀ l l' k, loop l = some (l', k) → SzL l l')
     (hc : Core cfg st s) (h : onReadSuffix s b loop = some (s', b')) :
@@ -63,16 +63,16 @@ theorem onReadSuffix_spec {cfg : Cfg} {st : Bool} {s s' : Ledger} {b b' : Buf}
       exact ⟨putAll_sz_core hc hr (hl _ _ _ hk), (putAll_blocks _ _).1, (putAll_blocks _ _).2.1, rfl, rfl⟩
 
 /-- a write into a block that is not caller memory is a fine event -/
-theorem evOK_write {cfg : Cfg} {st : Bool} {s : Ledger} {blk lo hi : Nat} {bl : Block} (h : s.blocks[blk]? = some bl)
+theorem evOK_write {cfg : Cfg} {st : Bool} {s : Mem} {blk lo hi : Nat} {bl : Block} (h : s.blocks[blk]? = some bl)
     (hk : bl.kind ≠ .caller) : EvOK cfg st s (.write blk lo hi) := fun _ => ⟨bl, h, hk⟩
 
-theorem BlkOK.not_caller {cfg : Cfg} {s : Ledger} {b cap : Nat} (h : BlkOK cfg s b cap) :
+theorem BlkOK.not_caller {cfg : Cfg} {s : Mem} {b cap : Nat} (h : BlkOK cfg s b cap) :
     ∃ bl : Block, s.blocks[b]? = some bl ∧ bl.kind ≠ .caller := by
   obtain ⟨bl, h1, h2⟩ := h
   refine ⟨bl, h1, ?_⟩
   rcases h2 with h2 | ⟨h2, _⟩ <;> rw [h2] <;> decide
 
-theorem next_typed {cfg : Cfg} {st : Bool} {s s' : Ledger} {id : Nat} {b b' : Buf} {n : Int} (hc : Core cfg st s) (hb : BufOK cfg s b)
+theorem next_typed {cfg : Cfg} {st : Bool} {s s' : Mem} {id : Nat} {b b' : Buf} {n : Int} (hc : Core cfg st s) (hb : BufOK cfg s b)
     (h : next cfg s id b n = some (s', b')) : Tri cfg st s s' b' := by
   unfold next at h
   split at h
@@ -138,7 +138,7 @@ theorem next_typed {cfg : Cfg} {st : Bool} {s s' : Ledger} {id : Nat} {b b' : Bu
             refine ⟨e1.trans (e2.trans (Ext.of_blocks_eq (by rw [addView_blocks]; rfl))), addView_core c3, ?_⟩
             exact ((hb2.ext e1).of_caches_eq k3 k4).ext (e2.trans (Ext.of_blocks_eq (by rw [addView_blocks]; rfl)))
 
-theorem retirePeek_ok {cfg : Cfg} {s : Ledger} {b : Buf} (n : Nat) (hb : BufOK cfg s b) : BufOK cfg s (b.retirePeek n) := by
+theorem retirePeek_ok {cfg : Cfg} {s : Mem} {b : Buf} (n : Nat) (hb : BufOK cfg s b) : BufOK cfg s (b.retirePeek n) := by
   unfold Buf.retirePeek
   split
   · rename_i blk l cp hp
@@ -151,7 +151,7 @@ theorem retirePeek_ok {cfg : Cfg} {s : Ledger} {b : Buf} (n : Nat) (hb : BufOK c
     · exact hb
   · exact hb
 
-theorem peekFill_typed {cfg : Cfg} {st : Bool} {s s1 s' : Ledger} {id : Nat} {b b' : Buf} {n blk l cp : Nat}
+theorem peekFill_typed {cfg : Cfg} {st : Bool} {s s1 s' : Mem} {id : Nat} {b b' : Buf} {n blk l cp : Nat}
     (e1 : Ext s s1) (c1 : Core cfg st s1) (hb : BufOK cfg s b) (hk : CacheOK cfg s1 blk cp)
     (hh : peekFill s1 id b n blk l cp = some (s', b')) : Tri cfg st s s' b' := by
   have hbk : ∀ l', BufOK cfg s1 { b with cachePeek := some (blk, l', cp) } := fun l' =>
@@ -172,7 +172,7 @@ theorem peekFill_typed {cfg : Cfg} {st : Bool} {s s1 s' : Ledger} {id : Nat} {b 
         exact ⟨e1.trans (Ext.of_blocks_eq (by rw [addView_blocks]; rfl)), addView_core c2,
           (hbk l').ext (Ext.of_blocks_eq (by rw [addView_blocks]; rfl))⟩
 
-theorem peek_typed {cfg : Cfg} {st : Bool} {s s' : Ledger} {id : Nat} {b b' : Buf} {n : Int} (hc : Core cfg st s) (hb : BufOK cfg s b)
+theorem peek_typed {cfg : Cfg} {st : Bool} {s s' : Mem} {id : Nat} {b b' : Buf} {n : Int} (hc : Core cfg st s) (hb : BufOK cfg s b)
     (h : peek cfg s id b n = some (s', b')) : Tri cfg st s s' b' := by
   unfold peek at h
   split at h
@@ -197,7 +197,7 @@ theorem peek_typed {cfg : Cfg} {st : Bool} {s s' : Ledger} {id : Nat} {b b' : Bu
         · obtain ⟨e1, c1, _, bl, g1, g2, g3⟩ := mallocMem_spec (cfg := cfg) (s := s) n.toNat hc
           exact peekFill_typed e1 c1 hb3 ⟨bl, g1, g2, g3⟩ h
 
-theorem skip_typed {cfg : Cfg} {st : Bool} {s s' : Ledger} {b b' : Buf} {n : Int} (hc : Core cfg st s) (hb : BufOK cfg s b)
+theorem skip_typed {cfg : Cfg} {st : Bool} {s s' : Mem} {b b' : Buf} {n : Int} (hc : Core cfg st s) (hb : BufOK cfg s b)
     (h : skip s b n = some (s', b')) : Tri cfg st s s' b' := by
   unfold skip at h
   split at h
@@ -208,7 +208,7 @@ theorem skip_typed {cfg : Cfg} {st : Bool} {s s' : Ledger} {b b' : Buf} {n : Int
     · obtain ⟨c2, k1, _, k3, k4⟩ := onReadSuffix_spec (fun l l' k => skipLoop_sz l _) hc h
       exact ⟨Ext.of_blocks_eq k1, c2, ((consumeLen_ok _ hb).of_caches_eq k3 k4).ext (Ext.of_blocks_eq k1)⟩
 
-theorem readByte_typed {cfg : Cfg} {st : Bool} {s s' : Ledger} {b b' : Buf} (hc : Core cfg st s) (hb : BufOK cfg s b)
+theorem readByte_typed {cfg : Cfg} {st : Bool} {s s' : Mem} {b b' : Buf} (hc : Core cfg st s) (hb : BufOK cfg s b)
     (h : readByte s b = some (s', b')) : Tri cfg st s s' b' := by
   unfold readByte at h
   split at h
@@ -216,14 +216,14 @@ theorem readByte_typed {cfg : Cfg} {st : Bool} {s s' : Ledger} {b b' : Buf} (hc 
   · obtain ⟨c2, k1, _, k3, k4⟩ := onReadSuffix_spec (fun l l' k => readByteLoop_sz l) hc h
     exact ⟨Ext.of_blocks_eq k1, c2, ((consumeLen_ok _ hb).of_caches_eq k3 k4).ext (Ext.of_blocks_eq k1)⟩
 
-theorem untilIdx_typed {cfg : Cfg} {st : Bool} {s s' : Ledger} {id : Nat} {b b' : Buf} {idx : Int} (hc : Core cfg st s) (hb : BufOK cfg s b)
+theorem untilIdx_typed {cfg : Cfg} {st : Bool} {s s' : Mem} {id : Nat} {b b' : Buf} {idx : Int} (hc : Core cfg st s) (hb : BufOK cfg s b)
     (h : untilIdx cfg s id b idx = some (s', b')) : Tri cfg st s s' b' := by
   unfold untilIdx at h
   split at h
   · cases h; exact Tri.same hc hb
   · exact next_typed hc hb h
 
-theorem readBinary_typed {cfg : Cfg} {st : Bool} {s s' : Ledger} {id : Nat} {b b' : Buf} {n : Int} (hc : Core cfg st s) (hb : BufOK cfg s b)
+theorem readBinary_typed {cfg : Cfg} {st : Bool} {s s' : Mem} {id : Nat} {b b' : Buf} {n : Int} (hc : Core cfg st s) (hb : BufOK cfg s b)
     (h : readBinary s id b n = some (s', b')) : Tri cfg st s s' b' := by
   unfold readBinary at h
   split at h
@@ -236,7 +236,7 @@ theorem readBinary_typed {cfg : Cfg} {st : Bool} {s s' : Ledger} {id : Nat} {b b
       have e1 := allocBlock_ext s .gc n.toNat
       have c1 := allocBlock_core (cfg := cfg) .gc n.toNat hc
       obtain ⟨bl, g1, g2, _⟩ := allocBlock_get s .gc n.toNat
-      have hnodes : (s.allocBlock .gc n.toNat).1.nodes = s.nodes := by simp [Ledger.allocBlock]
+      have hnodes : (s.allocBlock .gc n.toNat).1.nodes = s.nodes := by simp [Mem.allocBlock]
       generalize s.allocBlock .gc n.toNat = p at h e1 c1 g1 hnodes
       obtain ⟨s1, blk⟩ := p
       simp only at h e1 c1 g1 hnodes
@@ -263,7 +263,7 @@ theorem readBinary_typed {cfg : Cfg} {st : Bool} {s s' : Ledger} {id : Nat} {b b
             Ext.of_blocks_eq (by rw [addView_blocks]; exact k1)
           exact ⟨e1.trans e2, addView_core c3, (((hb1.of_caches_eq h1 h2).ext e1).of_caches_eq k3 k4).ext e2⟩
 
-theorem freeCaches_spec {cfg : Cfg} {st : Bool} : ∀ (l : List Nat) {s : Ledger}, Core cfg st s → (∀ blk ∈ l, ∃ cp : Nat, CacheOK cfg s blk cp) →
+theorem freeCaches_spec {cfg : Cfg} {st : Bool} : ∀ (l : List Nat) {s : Mem}, Core cfg st s → (∀ blk ∈ l, ∃ cp : Nat, CacheOK cfg s blk cp) →
     Ext s (freeCaches cfg s l) ∧ Core cfg st (freeCaches cfg s l)
   | [], s, hc, _ => ⟨Ext.refl s, hc⟩
   | blk :: rest, s, hc, h => by
@@ -277,7 +277,7 @@ theorem freeCaches_spec {cfg : Cfg} {st : Bool} : ∀ (l : List Nat) {s : Ledger
       obtain ⟨cp', hh⟩ := h x (List.mem_cons_of_mem _ hx); exact ⟨cp', hh.ext e1⟩)
     exact ⟨e1.trans e2, c2⟩
 
-theorem releaseCore_typed {cfg : Cfg} {st : Bool} {s s' : Ledger} {b b' : Buf} (hc : Core cfg st s) (hb : BufOK cfg s b)
+theorem releaseCore_typed {cfg : Cfg} {st : Bool} {s s' : Mem} {b b' : Buf} (hc : Core cfg st s) (hb : BufOK cfg s b)
     (h : releaseCore cfg s b = some (s', b')) : Tri cfg st s s' b' := by
   unfold releaseCore at h
   split at h
@@ -303,9 +303,9 @@ theorem releaseCore_typed {cfg : Cfg} {st : Bool} {s s' : Ledger} {b b' : Buf} (
               freeMem_core c2 (fun x hx => by cases hx; exact ((hb.peek blk l cp hp).ext e12).blkOK)
             exact ⟨e12.trans (freeMem_ext _ _ _ _), c3, BufOK.empty rfl rfl⟩
 
-theorem endViews_ext (s : Ledger) (o : Nat) : Ext s (s.endViews o) := Ext.of_blocks_eq rfl
+theorem endViews_ext (s : Mem) (o : Nat) : Ext s (s.endViews o) := Ext.of_blocks_eq rfl
 
-theorem release_typed {cfg : Cfg} {st : Bool} {s s' : Ledger} {id : Nat} {b b' : Buf} (hc : Core cfg st s) (hb : BufOK cfg s b)
+theorem release_typed {cfg : Cfg} {st : Bool} {s s' : Mem} {id : Nat} {b b' : Buf} (hc : Core cfg st s) (hb : BufOK cfg s b)
     (h : release cfg s id b = some (s', b')) : Tri cfg st s s' b' := by
   unfold release at h
   split at h
